@@ -227,6 +227,11 @@ def run(ctx):
     ctx.check(same(B.ret(), B.expr('next((x for x in self.ike_sas if x.peer_addr == %s))' % bp.call_params()[0])), 'Y4',
               'the lookup compares the peer address of each table entry', key=('Y4', 'by-peer'), site=ctx.site(bp, bp.node),
               detail={'returned': tq.text(B.ret())})
+    # "an IKE_SA with that peer" found by address is a real one: besides the IKE_SAs the controller creates itself, the table only
+    # gains the successor of a completed rekey (never the half-built object of a refused rekey, which has the same peer address and
+    # would be handed the ACQUIRE as if it were established)
+    from .c16 import successor_registration
+    successor_registration(ctx, ctx.escape('engine', kills=common.engine_kills(ctx)), 'Y4')
     for c in ctors:
         b = {k: strip_ids(v) for k, v in c.args.items()}
         conf = strip_ids(A.expr('self.configuration.get_ike_configuration(MY, PEER)', dict(A.entry_env, MY=mine, PEER=peer)))
@@ -307,4 +312,4 @@ MANIFEST = {
     'design_ref': 'DESIGN.md 3/C15',
 }
 MANIFEST['note'] += (' Also decided here (necessary conditions shared between properties or added after the independent '
-                     'change rounds, DESIGN.md 8.7): policy message builder and mirror layouts (from C14), close() flushes first, every ACQUIRE handed over, configuration not mutated.')
+                     'change rounds, DESIGN.md 8.7): policy message builder and mirror layouts (from C14), close() flushes first, every ACQUIRE handed over, configuration not mutated, registration of a rekey successor (from C16).')
